@@ -267,6 +267,24 @@ def run_case(spec, j):
       j.check('C17.handed-out-matrix-stable', np.array_equal(M, Mcopy),
               dict(det, ops=ops[-6:]))
 
+  def fresh_check():
+    # second reference model: the last fit replayed in a pristine process
+    a, k = args_for(cur)
+    with api.paused():
+      tw, err = _fresh_process_twin(clone(proto['est']), a, k,
+                                    list(since_fit),
+                                    int(rng.randint(2**31 - 1)))
+    if tw is None:
+      if name in ('SDML', 'SDML_Supervised') and 'RuntimeError' in err:
+        j.skip('C17.fresh-process', 'sdml-solver-failure')
+      else:
+        j.violated('C17.fresh-process',
+                   dict(det, ops=ops[-8:], fresh_process_raised=err),
+                   mechanism='fresh-process-fit-raised')
+    else:
+      Q = fits[cur]['X'][rng.randint(0, len(fits[cur]['X']), size=(6, 2))]
+      _compare(j, 'C17.fresh-process', est, tw, Q, dict(det, ops=ops[-8:]))
+
   length = spec['length']
   # every history contains a direct transition between the two datasets of
   # equal dimensionality (a stale cache keyed on shapes survives only there)
@@ -338,6 +356,9 @@ def run_case(spec, j):
               else 'C17.history-independent'
           _compare(j, mon, est, tw, Qarg, dict(det, ops=ops[-8:]))
           check_handed()
+          if spec.get('fresh') and forced == 2 and spec['hseed'] % 2 == 0:
+            # just refitted on other values of the same shape and labels
+            fresh_check()
         elif op == 'transform':
           est.transform(qdata(cur, 1, 7))
         elif op == 'pair_distance':
@@ -434,21 +455,7 @@ def run_case(spec, j):
       return
   check_handed()
   if spec.get('fresh') and cur is not None:
-    # second reference model: the last fit replayed in a pristine process
-    a, k = args_for(cur)
-    with api.paused():
-      tw, err = _fresh_process_twin(clone(proto['est']), a, k, since_fit,
-                                    int(rng.randint(2**31 - 1)))
-    if tw is None:
-      if name in ('SDML', 'SDML_Supervised') and 'RuntimeError' in err:
-        j.skip('C17.fresh-process', 'sdml-solver-failure')
-      else:
-        j.violated('C17.fresh-process',
-                   dict(det, ops=ops[-8:], fresh_process_raised=err),
-                   mechanism='fresh-process-fit-raised')
-    else:
-      Q = fits[cur]['X'][rng.randint(0, len(fits[cur]['X']), size=(6, 2))]
-      _compare(j, 'C17.fresh-process', est, tw, Q, dict(det, ops=ops[-8:]))
+    fresh_check()
   if spec.get('ro'):
     j.ok('C17.no-write-into-arguments')
   if len(fitted_sets) >= 2:
